@@ -9,6 +9,8 @@ import (
 	"sync"
 	"time"
 	"unsafe"
+
+	"github.com/robustirc/robustirc/internal/robust"
 )
 
 // vexport makes an addressable value reached through unexported fields readable.
@@ -35,6 +37,34 @@ func (i *IRCServer) VerifCanon() map[string]string {
 	out := map[string]string{}
 	vflat(reflect.ValueOf(i).Elem(), "", "IRCServer", out)
 	return out
+}
+
+// VerifCanonLive is VerifCanon with serverSessions restricted to ids that are
+// still sessions: the slice never shrinks on a running server, while a loaded
+// one rebuilds it from the sessions (ids of ended links are undeliverable).
+func (i *IRCServer) VerifCanonLive() map[string]string {
+	out := i.VerifCanon()
+	i.sessionsMu.RLock()
+	defer i.sessionsMu.RUnlock()
+	var ids []uint64
+	seen := map[uint64]bool{}
+	for _, id := range i.serverSessions {
+		if s, ok := i.sessions[robust.Id{Id: id}]; ok && s.Server && !seen[id] {
+			seen[id] = true
+			ids = append(ids, id)
+		}
+	}
+	sort.Slice(ids, func(a, b int) bool { return ids[a] < ids[b] })
+	out[".serverSessions"] = fmt.Sprintf("%v", ids)
+	return out
+}
+
+// VerifIsSession reports whether id is currently a session.
+func (i *IRCServer) VerifIsSession(id uint64) bool {
+	i.sessionsMu.RLock()
+	defer i.sessionsMu.RUnlock()
+	_, ok := i.sessions[robust.Id{Id: id}]
+	return ok
 }
 
 // VerifCanonDiff lists the paths on which two canonical forms differ.
